@@ -357,3 +357,101 @@ def captured_field_writes(fv, fld):
             if "rv" in s and p.get("l") == 1 and p.get("p") and p["p"][-1] == "*" and any(isinstance(e, dict) and (e.get("n") or "").endswith("__" + fld) for e in p["p"]):
                 out.append((bi, si, s))
     return out
+
+
+def taint_flow(prog, fv, is_source, rounds=12, call_is_source=None):
+    """Flow-insensitive may-flow over one body: which storage roots can hold a value derived from a source.
+    A storage root is a local, or for a coroutine a named field of its state (locals that live across an await).
+    `is_source(place_dict)` marks source places (e.g. the payload of an enum variant); closures whose bodies read a source
+    (checked through `is_source` on their own places) are sources as values.  A call taints its destination if any argument is
+    tainted, and (collections) the referent of its first `&mut` argument if another argument is."""
+    def root(p):
+        if p is None:
+            return None
+        proj = p.get("p") or []
+        names = tuple(e.get("n") for e in proj if isinstance(e, dict) and "f" in e and e.get("n"))
+        # a coroutine's saved locals are fields of its state behind a variant downcast (`(*_s as #3).name`), reached through
+        # _1 or a copy of the pinned pointer: the storage root is the saved local, not the state as a whole
+        if fv.f.get("kind") == "coroutine" and any(isinstance(e, dict) and str(e.get("d", "")).startswith("#") for e in proj):
+            return ("state", names[0]) if names else None
+        if p["l"] == 1 and fv.f.get("kind") == "coroutine":
+            return ("state", names[0]) if names else None
+        return ("L", p["l"])
+
+    def places(x, out):
+        if isinstance(x, dict):
+            if "l" in x and isinstance(x["l"], int):
+                out.append(x)
+            for k_, v in x.items():
+                if k_ != "p" or not isinstance(v, list):
+                    places(v, out)
+                else:
+                    for e in v:
+                        if isinstance(e, dict) and "i" in e:
+                            out.append({"l": e["i"]})
+        elif isinstance(x, list):
+            for v in x:
+                places(v, out)
+
+    def closure_reads_source(ck, depth=3):
+        if ck not in prog.ix or depth <= 0:
+            return False
+        cv = view(prog, ck)
+        for b in cv.live:
+            for s in cv.blocks[b]["s"]:
+                ps = []
+                places(s.get("rv", {}), ps)
+                if any(is_source(p) for p in ps):
+                    return True
+                rv = s.get("rv")
+                if rv and rv["r"] == "agg" and rv.get("k") == "closure" and closure_reads_source(rv.get("def"), depth - 1):
+                    return True
+        return False
+
+    tainted = set()
+    refs = {}          # local holding `&mut x` / `&x` -> root of x
+    for b in fv.live:
+        for s in fv.blocks[b]["s"]:
+            rv = s.get("rv")
+            if rv and rv["r"] == "ref" and not s["p"].get("p"):
+                refs[s["p"]["l"]] = root(rv["p"])
+    for _ in range(rounds):
+        before = len(tainted)
+        for b in fv.live:
+            for s in fv.blocks[b]["s"]:
+                rv = s.get("rv")
+                if not rv:
+                    continue
+                ps = []
+                places(rv, ps)
+                hit = any(is_source(p) or root(p) in tainted for p in ps)
+                if rv["r"] == "agg" and rv.get("k") == "closure" and closure_reads_source(rv.get("def")):
+                    hit = True
+                if hit and root(s["p"]) is not None:
+                    tainted.add(root(s["p"]))
+            t = fv.blocks[b]["t"]
+            if t["t"] == "call":
+                ps = []
+                places(t.get("args", []), ps)
+                arg_hit = []
+                for i, a in enumerate(t.get("args", [])):
+                    aps = []
+                    places(a, aps)
+                    if any(is_source(p) or root(p) in tainted or refs.get(p["l"]) in tainted for p in aps):
+                        arg_hit.append(i)
+                nm_ = (t["f"].get("name") or "")
+                if call_is_source is not None and call_is_source(t) and t.get("dest") and root(t["dest"]) is not None:
+                    tainted.add(root(t["dest"]))
+                # values do not flow through formatting / logging / size queries / drops
+                opaque = re.search(r"fmt::|log::|::is_empty$|::len$|Arguments|__private_api|mem::drop|::contains$|PartialEq|::eq$|::ne$", nm_) is not None
+                if arg_hit and not opaque:
+                    if t.get("dest") and root(t["dest"]) is not None:
+                        tainted.add(root(t["dest"]))
+                    a0 = t["args"][0] if t.get("args") else None
+                    q0 = (a0.get("c") or a0.get("m")) if a0 else None
+                    if q0 is not None and not q0.get("p") and q0["l"] in refs and any(i > 0 for i in arg_hit) and re.search(r"::(push|push_back|extend|extend_from_slice|insert|append)$", nm_):
+                        if refs[q0["l"]] is not None:
+                            tainted.add(refs[q0["l"]])
+        if len(tainted) == before:
+            break
+    return tainted, root, refs
